@@ -34,6 +34,8 @@ from harness.common import CORPUS_DIR
 
 RULE = ("cases: matrix-product chains of every length 2..8 x every root x open-leg dims {1,2,3} x zero padding of "
         "bonds (state / operator / generic chain classes, both from_tensor_list paths) and constant product states; "
+        "integer chains n = 2..6 x every root x padding (kind mpsval: the Lean model evaluates its own binding record "
+        "on the library's tensors and the chain record on the inputs, exactly); "
         "stars (constant product state, and random tensors with random chain interleaving), forks (constant_ftps and "
         "random tensors with random main/sub interleaving), binary trees; TTNO.from_tensor on random trees <= 5 nodes "
         "with every leg assignment class and mode QR/SVD/tSVD, operators random / product / low-rank / zero; Ising and "
@@ -47,8 +49,11 @@ RULE = ("cases: matrix-product chains of every length 2..8 x every root x open-l
         "of its constructor (root not 0, padding, dimension != 2, > 1 chain, non-identity leg assignment, "
         "branching tree, grid with both directions, J or g outside {0, 1})")
 PARTIAL = [
-    "value-level faithfulness (tensor contents, zero padding of bonds, product-state values, operator matrices) is "
-    "decided per input by the dense oracle; the Lean theorems cover the index logic only: chain structure and leg "
+    "value level: from_tensor_value (any exact factorisation per pass => the network contracts to the input; the "
+    "factorisation contract is a hypothesis, validated numerically per case), mps_chain_value (every root builds the "
+    "chain sum_bonds prod_i T_i) and pad_bond_value (end padding) are proved; front padding, product-state values, "
+    "operator matrices, star / fork / binary values are decided per input by the dense oracle; leg-level theorems "
+    "cover the index logic: chain structure and leg "
     "order (mps_chain_structure), star / fork / binary structure and leg order (star_structure, fork_structure, "
     "binary_structure), the optional argument parent_leg of star and fork (parent_leg_attach: effect of one call "
     "on the parent's leg order; star_parent_leg_structure / fork_parent_leg_structure: any mixture of explicit "
